@@ -10,8 +10,8 @@ import (
 func TestNonASCIIFacts(t *testing.T) {
 	for _, x := range []struct{ domain, origin string }{
 		{"http://école.example", "http://ÉCOLE.example"},
-		{"http://k.example", "http://K.example"}, // KELVIN SIGN lower-cases to 'k'
-		{"http://a\xff.example", "http://a\xfe.example"}, // two DIFFERENT invalid bytes
+		{"http://k.example", "http://K.example"},                 // KELVIN SIGN lower-cases to 'k'
+		{"http://a\xff.example", "http://a\xfe.example"},         // two DIFFERENT invalid bytes
 		{"http://a\xff.example", "http://a\xef\xbf\xbd.example"}, // an invalid byte vs. a real U+FFFD
 		{"http://straße.example", "http://STRASSE.example"},
 	} {
